@@ -16,51 +16,59 @@
   end position" are violations).
 
   Proved here, for ALL states / word lists / segmentations:
+    * `retrieve_header_sound` — OK ⇒ the WHOLE BLOCK HEADER is one the oracle
+      accepts, and `rand` / `bwt_idx` are the oracle's (see below);
     * `retrieve_sound_partial` — an OK answer always carries a non-empty block
       that contains its primary index (ERR_EMPTY / ERR_BWTIDX are never
       skipped), with or without segmentation;
+    * `retrieve_reads_sequentially` — the saved position always designates a
+      suffix of the input bits (strictly sequential reading);
+    * `retrieve_take_sound`, `retrieve_selector_sound`,
+      `retrieve_delta_window_sound` — the local facts the header theorem is
+      composed of (every `TAKE`, one selector, one delta window);
     * `retrieve_symbols_sound` — the retriever's per-symbol actions (run
       accumulation with the 32-bit `run`, delayed writes, overflow tests,
       `mtf_one` on the sliding lists, flush at EOB) ARE `Model.MtfDec.consume`,
       hence — by W10's `runAccum_sound` — produce exactly the reference
       `Spec.Mtf.unMtfRle2` of the symbol sequence, and reject exactly when the
       reference rejects.
-  Proved elsewhere and ready to be composed: `Props.C05.deltaWindow_sound`
-  (windowed delta reader = bit-by-bit reference), `Props.C05.Tree.makeTree_kraft`
-  (verdict stored in `mtf[t]` = Kraft comparison), `Props.C09.Retrieve.*`
-  (result independent of segmentation, fast = slow), so that the remaining
-  proof can be done on ONE call over the whole word list with the slow branch.
 
-  The gap, item by item:
-    (1) bit buffer = FIFO of the stream's bits.  The operations are done:
-        `Lemmas.RetrieveBits.refill_bits` (a refill appends the 32 bits of the
-        word), `dump_bits` (`DUMP(k)` drops `k`), `peek_testBit` (`PEEK(k)` =
-        the next `k` bits, zero-padded), `buf_ext`, all under the invariant
-        `BufInv` ("`v < 2^64`, bits below the live ones are 0") which they
-        preserve, and they are threaded through every `step`, `drain`, `toTop`,
-        the group loop and a whole call: `retrieve_reads_sequentially` below
-        (the position handed back designates a suffix of the input bits).
-        The VALUES read are done locally: `retrieve_take_sound` (`TAKE(x, k)` =
-        the reference's `takeNat k` on the unread bits);
-    (2) header: every field is a `TAKE` (done, `retrieve_take_sound`); one
-        selector = `Spec.Bzip2.readUnary` (done, `retrieve_selector_sound`).
-        Missing: the bitmap rows (`bitmapOuter` / `rowBody` =
-        `MtfDec.bitmapLoop` over the 256 flags = `Spec.readBitmapRows`), the
-        `mtf` update in `selectTree` = `unMtfSelectors`, and the COMPOSITION of
-        the local facts along a run (an invariant "reference continuation from
-        the current state on the unread bits is constant" over `toTop`);
-    (3) one iteration of the delta loop = `Lemmas.Delta.winModel` on the unread
-        bits (done, `retrieve_delta_window_sound`; with
-        `Lemmas.Delta.sym_eq_winModel` that is ≤ 3 steps of `Spec.Delta.sym`).
-        Missing: the composition over a table (as in `Lemmas.Delta.loop_eq`, but
-        across `NEED`), and `Spec.Delta.table` = `Spec.Bzip2.readTable`;
+  How the header theorem is built (Lemmas/Retrieve*.lean, all ∀ inputs, all
+  suspension patterns — every lemma starts from an arbitrary state at a `NEED`
+  site, so resumed calls are covered, and is an "iff with escape": reference
+  accepts ⇒ machine gets there or runs out of words; reference rejects ⇒
+  machine answers an error or runs out of words):
+    RetrieveBits      buffer = FIFO of the stream's bits (`refill_bits`,
+                      `dump_bits`, `peek_testBit`), invariant threaded through
+                      every step (`bitsOK_step`, `run_bits`);
+    RetrieveValues    `TAKE` = `takeNat`, `PEEK(6)` = `peek6`, one delta window
+                      = `Lemmas.Delta.winModel`, one selector = `readUnary`;
+    RetrieveDelta     `delta_loop`: the suspendable delta loop = `Spec.Delta.syms`;
+    RetrieveTables    `table_spec`, `tables_spec`: all tables = `Spec.Delta.table`
+                      iterated, `make_tree` applied to the reference's lengths;
+    RetrieveSelectors `selectors_spec`: the selector loop = `readUnary` iterated;
+    RetrieveBitmap    `rowBody` = `Spec.Bzip2.usedOfRow`, `bitmap_rows_spec`,
+                      `counts_spec` (nGroups / nSelectors tests);
+    RetrieveHeader    `header_spec`: the whole header = `specHeader`;
+    RetrieveSpecLink  reference against reference: `readLen` = `Spec.Delta.sym`,
+                      `readTable` = `Spec.Delta.table`, `readSelectorMtf`,
+                      `readBitmapRows` without position bookkeeping, and
+                      `parseBlock_factor`: THE oracle `Spec.Bzip2.parseBlock` =
+                      32-bit CRC, `specHeader`, then `parseTail`
+                      (`unMtfSelectors`, `decodeGroups`, the `Block` record).
+
+  The remaining gap to `retrieve_sound` is the GROUP phase only:
     (4) `Model.Canon.lookup` on the 64-bit window = `Spec.Bzip2.decodeSym`
         for a complete table (`makeTree_sound`, open in W11 as well:
-        Props/C05/Tree.lean header);
-    (5) the group loop of the slow machine = `symLoop` over the symbols of (4)
-        with `Spec.Bzip2.decodeGroups`' grouping, and the 18001 clamp
-        (`Props.C08.selectors_enough`);
-    (6) `Spec.Mtf.unMtfRle2` = `Spec.Bzip2.unMtfRle2` (two reference texts).
+        Props/C05/Tree.lean header), and `treeCode < 6` ⇔ `mkCode.complete`
+        (from `Props.C05.Tree.makeTree_kraft`);
+    (5) the group loop of the slow machine (`selectTree` = one step of
+        `unMtfSelectors`; 50 × `stepPrefix` under `NEED(S_PREFIX)`) =
+        `Spec.Bzip2.decodeGroups` followed by `symLoop` over the decoded
+        symbols — same proof pattern as `delta_loop` / `selectors_spec` — and
+        the 18001 clamp (`Props.C08.selectors_enough`);
+    (6) `Spec.Mtf.unMtfRle2` = `Spec.Bzip2.unMtfRle2` (two reference texts),
+        to bring `retrieve_symbols_sound` to the oracle's own function.
 -/
 import LbzVerif.Lemmas.RetrieveOk
 import LbzVerif.Lemmas.RetrieveBits
